@@ -137,11 +137,11 @@ CHECKS["C08"] = dict(
     level="exploration", engine="E-REWRITE",
     technique="bounded exhaustive input enumeration on the implementation: every single semantics-preserving re-encoding at every node of exporter-produced files, each first validated as equivalent by the independent reader",
     level_text="Four exporter-produced seed files containing every map and array kind of the format are parsed into encoding-preserving trees; every single rewrite at every node (definite<->indefinite per container, chunking of each string into 1/2/3/len chunks, each wider head, map reversal / rotation / every adjacent swap, insertion of an unknown positive or negative key with one of 19 values at front/middle/end of each map) and 24 whole-file rewrites are generated; the independent reader must confirm the rewritten file denotes the same data (guards the generator), then the canonical dump through CdnsReader must equal the original's.",
-    level_note="Trusted: ref/ reader as equivalence guard. Compositions of two or more local rewrites are covered only by the whole-file variants (everything indefinite / widest / chunked / reversed / unknown member in every map / all at once).",
+    level_note="Trusted: ref/ reader as equivalence guard. Compositions: every pair of local rewrites at different nodes (thorough tier, two seeds) and the whole-file variants (everything indefinite / widest / chunked / reversed / unknown member in every map with 19 values and 25 congruent keys / all at once); triples and more only through the whole-file variants.",
     stages=[dict(harness="rewrite", variant="asan", args=["--mode", "rewrite"])],
     rule="(seed, node, rewrite) triples enumerated exhaustively; every case compares two real reader runs; distinct by construction",
     bound_quick="single rewrites on seeds rich, small, alt (unknown-member values rotated: 3 per position); whole-file variants on all 4 seeds",
-    bound_thorough="single rewrites on all 4 seeds with all 19 unknown-member values per position and all permutations of maps with <= 4 members",
+    bound_thorough="single rewrites on all 4 seeds with all 19 unknown-member values per position and all permutations of maps with <= 4 members; every PAIR of local rewrites (6 kinds) at two different nodes on the seeds small and alt",
     assumptions=[],
 )
 
